@@ -9,10 +9,10 @@ echo "== demo on unchanged tree"; PYTHONPATH="$WT" /venv/bin/python "$SD/demo.py
 git apply "$SD/patch.diff" || { echo "PATCH DOES NOT APPLY"; exit 2; }
 echo "== suite with patch"; /venv/bin/python -m pytest -q -p no:cacheprovider --timeout=900 --continue-on-collection-errors 2>&1 | tail -1
 echo "== demo with patch"; PYTHONPATH="$WT" /venv/bin/python "$SD/demo.py" >/dev/null 2>&1; echo "exit $?"
-cd /verif
+cd ${VERIF_HOME:-/verif}
 for p in "$@"; do
   echo "== check $p against patched tree"
   VERIF_REPO="$WT" ./check "$p" quick 2>&1 | grep -E "VIOLATION|KNOWN|^\[$p\]" | head -4
 done
 git -C "$WT" checkout -q -- .
-git -C /verif checkout -q -- evidence 2>/dev/null
+git -C ${VERIF_HOME:-/verif} checkout -q -- evidence 2>/dev/null
